@@ -732,6 +732,19 @@ func (pc *progressCtx) checkNextToken(nt *ssa.Function) {
 			if c, ok := in.(*ssa.Call); ok {
 				if sc := c.Call.StaticCallee(); sc != nil && canonFnName(sc) == "NextToken" && inPkg(sc, "lexer") {
 					n++
+				} else if c.Call.IsInvoke() && c.Call.Method.Name() == "NextToken" {
+					// through an interface the parser declares for its token source: every implementation the call
+					// graph finds must be the lexer's
+					all, any := true, false
+					for _, cal := range pc.m.calleesOf(c) {
+						any = true
+						if !(canonFnName(cal) == "NextToken" && inPkg(cal, "lexer")) {
+							all = false
+						}
+					}
+					if all && any {
+						n++
+					}
 				}
 			}
 		}
